@@ -74,7 +74,7 @@ def run(ctx):
         finally:
             S.close()
     # ---- generated
-    nbase = ctx.n(36, 40)
+    nbase = ctx.n(60, 24)
     per_base = ctx.n(2, 40)
     for _ in range(nbase):
         base, notes = TC.gen_base(ctx.rng, "C04")
@@ -88,12 +88,16 @@ def run(ctx):
             fsets = pri + ctx.rng.sample(rest, per_base - len(pri))
         if not fsets:
             fsets = [[]]
+        probed = set()  # the fault-free round is the same for every fail set: once per configuration
         for F in fsets:
             for cls, dix in _configs(ctx):
                 case = copy.deepcopy(base)
                 case["dst_cls"] = cls
                 case["dix"] = dix
-                case["rounds"] = [{"fails": [], "crash": None, "reset": True}]
+                case["rounds"] = []
+                if (cls, dix) not in probed or not F:
+                    probed.add((cls, dix))
+                    case["rounds"].append({"fails": [], "crash": None, "reset": True})
                 if F:
                     case["rounds"] += [{"fails": list(F), "crash": None, "reset": True},
                                        {"fails": [], "crash": None, "reset": False}]
@@ -109,9 +113,7 @@ def run(ctx):
                    f"{len(items)} scenarios, {ctx.dist.get('rounds', 0)} real transfer rounds "
                    f"({ctx.dist.get('crash-rounds', 0)} aborted), closure audited at {ctx.dist.get('audit-points', 0)} points; "
                    "withheld/failed and retry-completes judged on every faulty round")
-    import sys, time; t0 = time.time(); print("py part", t0 - ctx.t0, file=sys.stderr)
     ctx.correspond("transfer", TC.IMPORTS, TC.INPUT_TYPE, TC.MODEL_FN, items, shard=40)
-    print("coq part", time.time() - t0, file=sys.stderr)
     ctx.extra["exhaustive"] = False
 
 
